@@ -12,6 +12,7 @@ LEVEL = "exploration"
 ANCHORS = ["src/pylife/stress/equistress.py", "src/pylife/stress/stresssignal.py"]
 SHARDS = {"quick": 4, "thorough": 16}
 WATCHDOG = {"quick": 900, "thorough": 3000}
+SOAK = {"thorough": ['tests/stress/test_equistress.py', 'tests/strength']}      # contract soak (pv/contracts_more.py) under the repository's own tests
 REQUIRED_CLASSES = {t: ["tensor:uniaxial", "tensor:pure_shear", "tensor:hydrostatic", "tensor:repeated_eigenvalues", "tensor:zero",
                         "tensor:generic", "tensor:rotated_hydrostatic", "tensor:shear_only_in_plane_12", "tensor:shear_only_in_plane_13", "tensor:shear_only_in_plane_23", "input:scalar", "input:columns", "sign:near_tie_not_judged",
                         "sign:exact_tie_unrotated"]
